@@ -237,6 +237,9 @@ def probe_tree(variant):
     t = {"r": ("d", 0o755), "r/plain.txt": ("f", b"x\n", 0o644), "r/.hidden_file": ("f", b"x\n", 0o644),
          "r/.renamify": ("d", 0o755), "r/.renamify/x.json": ("f", b"{}\n", 0o644),
          "r/dir": ("d", 0o755), "r/dir/inner.txt": ("f", b"x\n", 0o644), "r/lnk": ("l", "dir"),
+         # the same two names further down: the model's name filter does not look at the depth
+         "r/dir/.renamify": ("d", 0o755), "r/dir/.renamify/x.json": ("f", b"{}\n", 0o644),
+         "r/dir/.git": ("d", 0o755), "r/dir/.git/config": ("f", b"x\n", 0o644),
          "r/ex.txt": ("f", b"x\n", 0o644), "r/exa.txt": ("f", b"x\n", 0o644)}
     for tag, fname in PROBE_KINDS:
         t[fname] = ("f", f"{tag}_above.txt\n".encode(), 0o644)
@@ -302,6 +305,11 @@ def probe_configure_walker(reason):
             cfg["git_ignore"] = "r/gi.txt" not in g
         cfg["hidden"] = "r/.hidden_file" not in ng
         cfg["filtered"] = [n for n, probe in ((".git", "r/.git"), (".renamify", "r/.renamify")) if probe not in g]
+        for n in (".git", ".renamify"):
+            deep_filtered = f"r/dir/{n}" not in g and not any(x.startswith(f"r/dir/{n}/") for x in g)
+            if deep_filtered != (n in cfg["filtered"]):
+                fail(f"{reason}; behavioural extraction: `{n}` is filtered at the top of the root but not further down (or the "
+                     f"other way round) at setting {st}: the model's name filter cannot express a depth")
         if "r/plain.txt" not in ng or "r/dir/inner.txt" not in ng:
             fail(f"{reason}; behavioural extraction: the walker does not yield plain files at setting {st}")
         return cfg
